@@ -104,6 +104,15 @@ def clientLoop : Nat → Sock → Nat → List Out
       else .timeout :: clientLoop fuel s' rounds
     | (o, _) => [o]
 
+/-- `tlsserverrd`: reads with a (long) timeout; a timeout with no request ends the connection -/
+def tlsServerLoop : Nat → Sock → List Out
+  | 0, _ => []
+  | fuel+1, s =>
+    match radGet false s with
+    | (.pkt b, s') => .pkt b :: tlsServerLoop fuel s'
+    | (.timeout, _) => [.timeout, .closed (-1)]
+    | (o, _) => [o]
+
 /-- octets the peer will have written by the end of the script -/
 def dataOf : List Ev → Bytes
   | [] => []
